@@ -1,7 +1,8 @@
 """C01: whole-message integrity on every transport, under any segmentation.
 Spec: wire/Framing.tla.  Every behaviour is replayed with the library's reads and writes clamped to 1, 2, 3 and 7 bytes per
 system call and unclamped, with payload scales 1 and 1000 (messages of 0, 1, 3, 5 bytes and 0, 1000, 3000, 5000 bytes), in
-both directions (PULL socket receiving, PUSH socket sending), over tcp, ipc and socket://, and (wire/Ws.tla) over ws:// in both roles; every delivered payload is compared byte by
+both directions (PULL socket receiving, PUSH socket sending), over tcp, ipc and socket://, (wire/Ws.tla) over ws:// in both roles, and
+(wire/Inproc.tla) over inproc between two sockets whose protocol is the driver itself; every delivered payload is compared byte by
 byte with its pattern, as is every frame the socket writes.  This check keeps the divergences in what was delivered."""
 from checks.wirelib import run_wire
 
@@ -27,3 +28,7 @@ def run(v, tier, rng):
                           ("WsC1000_sim.cfg", "pulld", 1000, [3], 60)], mc=False)
     v.cov["distinct_nontrivial"] = v.cov.get("distinct_nontrivial", 0) + n
     v.cov["divergences_outside_this_property"] = v.cov.get("divergences_outside_this_property", 0) + px.other
+    # the inproc transport (specification wire/Inproc.tla): the driver is the protocol on both sockets; header pull-up, message shapes,
+    # exclusive copy of a shared message, order, exactly-once hand-off
+    from checks.inproc import run_inproc
+    v.cov["distinct_nontrivial"] += run_inproc(v, tier, plans=("gen", "sim"))
